@@ -145,4 +145,169 @@ def appsOf : List Item → List (Nat × Nat)
   | .app w n :: r => (w, n) :: appsOf r
   | _ :: r => appsOf r
 
+/-! ## the receive side across key changes (readLoop / readOnePacket / kexLoop reading during a kex)
+
+  What arrives from the peer is the peer's wire. `readLoop` hands application packets to `incoming` in arrival
+  order; the peer's KEXINIT makes `readOnePacket` block on `startKex` / `kex.done` while `kexLoop` itself reads the
+  kex messages and the peer's NEWKEYS from the connection; afterwards `readLoop` continues. A kex message outside a key
+  exchange (EXT_INFO after NEWKEYS) is passed up like any other non-application packet. An application packet
+  or a second KEXINIT inside the key exchange makes the kex method fail; a NEWKEYS outside is "bogus newkeys". -/
+
+inductive RPhase | idle | inKex | failed
+deriving DecidableEq, Repr
+
+structure RSt where
+  phase : RPhase
+  delivered : List (Nat × Nat)      -- application packets put into `incoming`, in order
+deriving DecidableEq, Repr
+
+def rinit : RSt := ⟨.idle, []⟩
+
+def recv (s : RSt) (it : Item) : RSt :=
+  match s.phase, it with
+  | .failed, _ => s
+  | .idle, .app w n => { s with delivered := s.delivered ++ [(w, n)] }
+  | .idle, .kexinit => { s with phase := .inKex }
+  | .idle, .kexmsg => s
+  | .idle, .newkeys => { s with phase := .failed }
+  | .inKex, .app _ _ => { s with phase := .failed }
+  | .inKex, .kexinit => { s with phase := .failed }
+  | .inKex, .kexmsg => s
+  | .inKex, .newkeys => { s with phase := .idle }
+
+def recvRun (s : RSt) (l : List Item) : RSt := l.foldl recv s
+
+/-! ## threshold accounting (writeBytesLeft / writePacketsLeft in `writePacket`, and identically
+     readBytesLeft / readPacketsLeft in `readOnePacket`) and the re-key request channel
+
+  push z     a packet of z bytes takes the direct path (`sentInitMsg == nil`): for each of the two budgets,
+             `if left > 0 { left -= … } else { requestKeyExchange() }`
+  request    an explicit `requestKeyExchange()` (non-blocking send on the capacity-1 channel)
+  take       `kexLoop` receives from `requestKex` while idle and goes on to `sendKexInit`
+  peerInit   `kexLoop` receives the peer's KEXINIT from `startKex` while idle and goes on to `sendKexInit`
+  drain      `kexLoop` receives from `requestKex` while our KEXINIT is already out (no effect besides emptying it)
+  kexinit    `sendKexInit`
+  finish     the closing critical section: `resetWriteThresholds()`, the channel is emptied; the queued packets
+             it flushes are *not* charged to the new budget
+  `counted`, `direct`, `over` are ghost variables. -/
+
+def packetBudget : Nat := 2 ^ 31
+
+structure BSt where
+  thr : Nat                 -- RekeyThreshold in effect
+  bytesLeft : Int
+  pktsLeft : Nat
+  reqKex : Bool             -- a token sits in the requestKex channel
+  woken : Bool              -- kexLoop has decided to send KEXINIT and has not done it yet
+  sentInit : Bool
+  counted : Nat             -- ghost: bytes charged to the byte budget since the last reset
+  direct : Nat              -- ghost: bytes of all direct pushes since the last reset
+  over : Nat                -- ghost: direct pushes since the last reset that found a budget exhausted
+
+def binit (thr : Nat) : BSt := ⟨thr, thr, packetBudget, false, false, false, 0, 0, 0⟩
+
+inductive BLabel
+  | push (z : Nat)
+  | request
+  | take
+  | peerInit
+  | drain
+  | kexinit
+  | finish
+deriving DecidableEq, Repr
+
+def bstep (s : BSt) : BLabel → Option BSt
+  | .push z =>
+    if s.sentInit then none else
+    let bytesEx := decide (s.bytesLeft ≤ 0)
+    let pktsEx := decide (s.pktsLeft = 0)
+    some { s with
+      bytesLeft := if bytesEx then s.bytesLeft else s.bytesLeft - z,
+      counted := if bytesEx then s.counted else s.counted + z,
+      pktsLeft := if pktsEx then s.pktsLeft else s.pktsLeft - 1,
+      reqKex := s.reqKex || bytesEx || pktsEx,
+      over := if bytesEx || pktsEx then s.over + 1 else s.over,
+      direct := s.direct + z }
+  | .request => some { s with reqKex := true }
+  | .take => if s.reqKex && !s.woken && !s.sentInit then some { s with reqKex := false, woken := true } else none
+  | .peerInit => if !s.woken && !s.sentInit then some { s with woken := true } else none
+  | .drain => if s.reqKex && s.sentInit then some { s with reqKex := false } else none
+  | .kexinit => if s.woken && !s.sentInit then some { s with woken := false, sentInit := true } else none
+  | .finish =>
+    if s.sentInit then
+      some { s with sentInit := false, bytesLeft := s.thr, pktsLeft := packetBudget, reqKex := false,
+                    counted := 0, direct := 0, over := 0 }
+    else none
+
+def brun (s : BSt) : List BLabel → Option BSt
+  | [] => some s
+  | l :: ls => match bstep s l with
+    | none => none
+    | some s' => brun s' ls
+
+/-- every pushed packet is at most `m` bytes -/
+def sizesBounded (m : Nat) : List BLabel → Bool
+  | [] => true
+  | .push z :: r => decide (z ≤ m) && sizesBounded m r
+  | _ :: r => sizesBounded m r
+
+/-- the acceptor for recorded traces: application packets as (size, bytesLeft shown by the implementation when the
+    packet was pushed), `none` = a NEWKEYS of this side (after which the budget is reset and queued packets are
+    flushed uncharged). `cur` = budget after the previous event, `flush` = still inside the uncharged flush. -/
+def budgetScan (thr : Int) : Int → Bool → List (Option (Nat × Int)) → Bool
+  | _, _, [] => true
+  | _, _, none :: r => budgetScan thr thr true r
+  | cur, flush, some (z, l) :: r =>
+    if decide (0 < cur) && l == cur - z then budgetScan thr l false r          -- charged
+    else if l == cur && (flush || decide (cur ≤ 0)) then budgetScan thr cur flush r   -- flushed, or budget exhausted
+    else false
+
+/-! ## the error path (`writeError`): `recordWriteError`, a failing push in `writePacket`, a failed key exchange
+
+  fail        `writeError` is set and `writeCond.Broadcast()` is called (recordWriteError / writePacket's own failure)
+  submitErr w `writePacket` while `writeError != nil`: returns the error, nothing is queued or pushed
+  wake w      a parked writer wakes with `writeError != nil`: returns the error, its packet is dropped
+  finishErr   the closing critical section of `kexLoop` after `enterKeyExchange` returned an error, *as written*:
+              `t.writeError = err`, `sentInitMsg = nil`, then the flush loop `t.writeError = t.pushPacket(p)` runs
+              all the same — with a transport that still accepts writes every queued packet is pushed and the last
+              assignment leaves `writeError == nil` again (until `readLoop`'s `recordWriteError` arrives) -/
+
+structure ESt where
+  s : St
+  err : Bool
+
+def einit : ESt := ⟨init, false⟩
+
+inductive ELabel
+  | ok (l : Label)
+  | fail
+  | submitErr (w : Nat)
+  | finishErr
+deriving DecidableEq, Repr
+
+def estep (e : ESt) : ELabel → Option ESt
+  | .ok (.wake w) =>
+    if e.err then
+      match e.s.parked.find? (fun p => p.w == w) with
+      | none => none
+      | some p => if !p.signalled then none
+                  else some { e with s := { e.s with parked := e.s.parked.filter (fun q => !(q.w == w)) } }
+    else (step e.s (.wake w)).map (fun s' => { e with s := s' })
+  | .ok l => if e.err then none else (step e.s l).map (fun s' => { e with s := s' })
+  | .fail =>
+    some { s := { e.s with parked := e.s.parked.map (fun q => { q with signalled := true }) }, err := true }
+  | .submitErr _ => if e.err then some e else none
+  | .finishErr =>
+    if e.err || e.s.kphase == .idle then none else
+    some { s := { e.s with sentInit := false, kphase := .idle,
+                           wire := e.s.wire ++ e.s.pending.map (fun p => Item.app p.1 p.2), pending := [],
+                           parked := e.s.parked.map (fun q => { q with signalled := true }) },
+           err := e.s.pending.isEmpty }
+
+def erun (e : ESt) : List ELabel → Option ESt
+  | [] => some e
+  | l :: ls => match estep e l with
+    | none => none
+    | some e' => erun e' ls
+
 end XC.C31
